@@ -70,10 +70,18 @@ Definition prefix_states (d : dstore) (l : list mstep) : list dstore :=
   d :: (fix go (d : dstore) (l : list mstep) : list dstore :=
           match l with [] => [] | st :: r => let d' := exec d st in d' :: go d' r end) d l.
 
-Fixpoint matching_from (k : Z) (ds : list dstore) (ov : oview) : list (Z * Z) :=
+(** [ov]: the recovered store before anything opened it; [ov2]: the store
+    after the restarted server's first GetUserDB for it ([ov_schema] = -3: not
+    observed).  Result per matching crash point: (k, 0 if the model reopens it
+    usable else 1, 1 if the model's state after [COpen] agrees with [ov2] else 0) *)
+Fixpoint matching_from (k : Z) (ds : list dstore) (ov ov2 : oview) : list (Z * Z * Z) :=
   match ds with
   | [] => []
-  | d :: r => (if view_agrees d ov then [(k, if reopen_ok_b d 0 then 0 else 1)] else []) ++ matching_from (k + 1) r ov
+  | d :: r =>
+    (if view_agrees d ov
+     then [(k, if reopen_ok_b d 0 then 0 else 1,
+            if (ov_schema ov2 =? -3) || view_agrees (fst (big d (COpen 0 0 0 0 0))) ov2 then 1 else 0)]
+     else []) ++ matching_from (k + 1) r ov ov2
   end.
 
 Fixpoint cum_steps (d : dstore) (h : list cop) (n : Z) : list Z :=
@@ -83,5 +91,5 @@ Fixpoint cum_steps (d : dstore) (h : list cop) (n : Z) : list Z :=
               let n' := n + Z.of_nat (length p) in n' :: cum_steps (run_steps d p) r n'
   end.
 
-Definition eval_crash (h : list cop) (ov : oview) : list (Z * Z) * list Z :=
-  (matching_from 0 (prefix_states absent (all_steps absent h)) ov, cum_steps absent h 0).
+Definition eval_crash (h : list cop) (ov ov2 : oview) : list (Z * Z * Z) * list Z :=
+  (matching_from 0 (prefix_states absent (all_steps absent h)) ov ov2, cum_steps absent h 0).
